@@ -55,7 +55,8 @@ ASSUMPTIONS = [
 ]
 REQUIRED_MONITORS = ["fd_dirs_compared", "evaluator_pairs_compared", "padding_rows_checked", "excited_dirs_compared",
                      "axis_aligned_dirs_compared", "sp2_dirs_compared", "dispersion_dirs_compared", "exact_x_axis_dirs_compared",
-                     "finite_checks", "cg_batches_with_uneven_iterations", "batch_vs_alone_rows_compared"]
+                     "finite_checks", "cg_batches_with_uneven_iterations", "batch_vs_alone_rows_compared",
+                     "reeval_calls_compared", "allforces_slots_compared"]
 CASE_TIMEOUT = 600.0
 BUDGET_S = {"quick": float(os.environ.get("VERIF_BUDGET_QUICK", 200)), "thorough": float(os.environ.get("VERIF_BUDGET_THOROUGH", 1700))}
 
@@ -276,6 +277,25 @@ def gen_cases(tier, seed):
                        "modes": ["analytical"], "orient": _orient_generic(), "layout": "homog",
                        "sigmas": [0.0, 0.03, 0.1, 0.15] if not quick or name == "CH2O" else [0.0, 0.1, 0.15],
                        "excited": {"method": xm, "n_states": act + 2, "active": act}, "seed": int(g.integers(0, 2**31))})
+    # repeated evaluations of ONE Molecule object (what MD / optimisers do) with excited-state reverse-mode forces
+    rev = [(["CH2O"], "AM1", "cis", 1, 1), (["CH2O"], "PM3", "rpa", 1, 1), (["CH2O", "H2O"], "AM1", "cis", 1, 1),
+           (["C2H4", "C2H4"], "MNDO", "cis", 1, 2)]
+    if not quick:
+        rev += [(["HNO"], "PM3", "cis", 2, 1), (["CH3OH"], "AM1", "rpa", 1, 1), (["HCN", "CH2O", "NH3"], "PM3", "cis", 1, 1),
+                (["HCOOH"], "AM1", "cis", 1, 2), (["CH2O", "CH2O", "CH2O"], "PM6_SP", "rpa", 2, 1), (["H2S"], "PM3", "cis", 1, 1)]
+    for names, method, xm, act, scfb in rev:
+        lib.insert(0, {"kind": "reeval", "mols": names, "method": method, "conv": [2] if scfb == 1 else [1], "sp2": None,
+                       "uhf": False, "modes": ["autodiff-scfb%d" % scfb], "orient": _orient_generic(),
+                       "layout": "single" if len(names) == 1 else ("homog" if len(set(names)) == 1 else "padded"),
+                       "excited": {"method": xm, "n_states": act + 2, "active": act}, "ncalls": 3, "kick": 0.02,
+                       "seed": int(g.integers(0, 2**31))})
+    # do_all_forces: slot i of molecule.all_forces vs a separate run with active_state = i (and its difference quotient)
+    for name, method, xm, act0 in ((("CH2O", "AM1", "cis", 0), ("CH2O", "AM1", "cis", 2), ("C2H4", "PM3", "rpa", 1)) if quick else
+                                   (("CH2O", "AM1", "cis", 0), ("CH2O", "AM1", "cis", 2), ("C2H4", "PM3", "rpa", 1),
+                                    ("H2O", "MNDO", "cis", 0), ("HCN", "AM1", "cis", 3), ("NH3", "PM6_SP", "cis", 1))):
+        lib.insert(0, {"kind": "allforces", "mol": name, "method": method, "conv": [2], "sp2": None, "uhf": False,
+                       "modes": ["analytical"], "orient": _orient_generic(), "layout": "homog", "nrows": 2,
+                       "excited": {"method": xm, "n_states": 3, "active": act0}, "seed": int(g.integers(0, 2**31))})
     for dm in disp:
         for conv in ([[2]] if quick else [[2], [1]]):
             lib.insert(0, {"kind": "dimer", "dimers": dm, "method": "AM1", "conv": conv, "sp2": None, "uhf": False,
@@ -809,10 +829,257 @@ def run_cgbatch(case):
     return res
 
 
+TOL_REEVAL_FRESH = 1e-6     # eV/A: same geometry, same settings, only the SCF / Davidson start differs (clean: 5e-10)
+
+
+def _is_solver_nonconvergence(e):
+    return "did not converge" in str(e) or "Maximum number of roots" in str(e) or "A-B matrix has negative" in str(e)
+
+
+def _fd_check(case, mode, Z, X, q, m, F, Ecall, exc, mon, upd, viol, name, clause, extra_detail, seed, maxdirs=12):
+    """difference quotient of the returned Etot (fresh molecules) against the force F of one row; -> n compared"""
+    gd = np.random.default_rng(seed)
+    dirs, labels = _directions(case, Z, X, gd)
+    dirs, labels = dirs[:maxdirs], labels[:maxdirs]
+    fd = fd_energy_derivatives(Z, X, q, m, _settings(case, mode, sp2=False), dirs, excited=exc)
+    mon["fd_energy_evals"] = mon.get("fd_energy_evals", 0) + fd["evals"]
+    if fd["nc0"] or not (abs(Ecall - fd["E0"]) <= E0_GUARD):
+        mon["energy_guard_failed"] = mon.get("energy_guard_failed", 0) + 1
+        return 0
+    allow = inner_step_allowance(case["method"], Z) if mode in ("analytical", "numerical") else 0.0
+    ncmp = 0
+    for k, dvec in enumerate(dirs):
+        if not fd["ok"][k]:
+            mon["fd_dirs_unconverged"] = mon.get("fd_dirs_unconverged", 0) + 1
+            continue
+        if not (fd["est"][k] <= EST_ABS + EST_REL * abs(fd["D"][k])) or not (fd["curv"][k] <= 1.0):
+            mon["fd_dirs_not_smooth"] = mon.get("fd_dirs_not_smooth", 0) + 1
+            continue
+        fdotd = float((F * dvec).sum())
+        tol = TOL_ABS + TOL_REL * abs(fdotd) + allow
+        ncmp += 1
+        mon["fd_dirs_compared"] = mon.get("fd_dirs_compared", 0) + 1
+        mon["excited_dirs_compared"] = mon.get("excited_dirs_compared", 0) + 1
+        if upd(name, abs(fdotd + fd["D"][k]), tol):
+            viol.append({"clause": clause, "mech": None,
+                         "detail": dict(extra_detail, direction=labels[k], F_dot_d=fdotd, minus_dE_ds=-float(fd["D"][k]),
+                                        abs_err=abs(fdotd + fd["D"][k]), tol=tol, species=Z, coords=X.tolist())})
+            break
+    return ncmp
+
+
+def run_reeval(case):
+    """call 1 on a fresh Molecule; then move the atoms in place and call again (2: P0 = previous density, 3: no P0).
+    For calls >= 2: force vs the same geometry on a FRESH Molecule and vs the difference quotient of the returned Etot."""
+    import torch
+    from vlib import run
+    g = np.random.default_rng(case["seed"])
+    rows = []
+    for name in case["mols"]:
+        Z, X0, q, m = gen.molecule(name)
+        X = gen.distort(X0, g, sigma=0.05)
+        rows.append((Z, X @ gen.generic_rotation(X, g).T + g.uniform(-3, 3, 3), q, m))
+    S, C = gen.pad_batch([(r[0], r[1]) for r in rows])
+    C = np.asarray(C, float)
+    Q = np.asarray([r[2] for r in rows], float)
+    mode = case["modes"][0]
+    exc = case["excited"]
+    a = exc["active"] - 1
+    sett = _settings(case, mode)
+    mon = {"force_calls": 0, "reeval_calls_compared": 0, "reeval_rows_compared_with_fresh": 0, "fd_dirs_compared": 0,
+           "excited_dirs_compared": 0, "finite_checks": 0}
+    margins, viol, obs = {}, [], {}
+
+    def upd(name, val, tol):
+        r = float(val) / tol
+        if not (r <= margins.get(name, -1.0)):
+            margins[name] = r
+        return not (r <= 1.0)
+
+    try:
+        with run.quiet():
+            mol, es, _ = run.build(S, C, sett, Q, 1)
+            es(mol)
+    except Exception as e:
+        if _is_solver_nonconvergence(e):
+            return {"ineligible": "first evaluation rejected: %s" % str(e)[:60], "monitors": mon}
+        raise
+    mon["force_calls"] += 1
+    mask = torch.as_tensor(np.asarray(S) > 0).unsqueeze(-1)
+    for call in range(2, case["ncalls"] + 1):
+        with torch.no_grad():
+            mol.coordinates.add_(torch.as_tensor(g.normal(0, case["kick"], C.shape)) * mask)
+        Xc = mol.coordinates.detach().cpu().numpy().copy()
+        fresh, err_re, err_fr = None, None, None
+        try:
+            fresh = run.single_point(S, Xc, sett, charges=Q, mult=1)
+        except Exception as e:
+            err_fr = e
+        try:
+            with run.quiet():
+                es(mol, P0=mol.dm) if call == 2 else es(mol)
+        except Exception as e:
+            err_re = e
+        mon["force_calls"] += 2
+        if err_re is not None or err_fr is not None:
+            bad = [e for e in (err_re, err_fr) if e is not None]
+            if all(_is_solver_nonconvergence(e) for e in bad):
+                obs.setdefault("solver_nonconvergence", []).append(call)     # same standing as a non-convergence flag
+                continue
+            if (err_re is None) != (err_fr is None):
+                viol.append({"clause": "reevaluation-raised-where-fresh-molecule-did-not" if err_re is not None else
+                             "fresh-molecule-raised-where-reevaluation-did-not", "mech": None,
+                             "detail": {"call": call, "error": repr(bad[0])[:300], "species": S, "coords": Xc.tolist()}})
+                continue
+            raise bad[0]
+        F = run.npy(mol.force)
+        E = run.npy(mol.Etot).reshape(-1)
+        ce = run.npy(mol.cis_energies)
+        ncr = np.asarray(run.npy(es.notconverged), bool).reshape(-1)
+        ncf = np.asarray(fresh["notconverged"], bool).reshape(-1)
+        compared = False
+        for r, (Z, _, q, m) in enumerate(rows):
+            n = len(Z)
+            mon["finite_checks"] += 1
+            if not ncr[r] and not (np.all(np.isfinite(F[r, :n])) and np.isfinite(E[r])):
+                viol.append({"clause": "force-not-finite-with-clean-flag/" + mode, "mech": None,
+                             "detail": {"row": r, "call": call, "species": Z, "coords": Xc[r, :n].tolist()}})
+                continue
+            if ncr[r] or ncf[r]:
+                continue
+            sep = min([abs(ce[r][k] - ce[r][a]) for k in (a - 1, a + 1) if 0 <= k < ce.shape[1]] + [9.0])
+            same = abs(E[r] - fresh["Etot"][r]) <= E0_GUARD and abs(ce[r][a] - fresh["cis_energies"][r][a]) <= 1e-7
+            if not (sep >= 0.2) or not same:
+                obs.setdefault("rows_skipped", []).append([call, r])
+                continue
+            d = np.abs(F[r, :n] - fresh["force"][r, :n]).max()
+            mon["reeval_rows_compared_with_fresh"] += 1
+            compared = True
+            wit = {"call": call, "row": r, "species": Z, "coords": Xc[r, :n].tolist(), "P0_reused": call == 2,
+                   "batch": case["mols"]}
+            if upd("reeval_vs_fresh/" + mode, d, TOL_REEVAL_FRESH):
+                viol.append({"clause": "reevaluated-force-vs-fresh-molecule/" + mode, "mech": None,
+                             "detail": dict(wit, max_abs_diff=float(d), tol=TOL_REEVAL_FRESH)})
+            if r == 0 and len(rows) == 1 or (r == 0 and call == 2):
+                _fd_check(case, mode, Z, Xc[r, :n], q, m, F[r, :n], float(E[r]), exc, mon, upd, viol,
+                          "fd_reeval/" + mode, "force-vs-fd/%s/call%d-on-same-molecule" % (mode, call), wit,
+                          case["seed"] + 100 * call + r, maxdirs=8)
+        if compared:
+            mon["reeval_calls_compared"] += 1
+    nontrivial = mon["reeval_calls_compared"] > 0
+    res = {"nontrivial": nontrivial, "violations": viol, "margins": margins, "monitors": mon,
+           "obs": dict(obs, worst=margins),
+           "cells": ["reeval/%s/%s-S%d/%s/%s" % (case["method"], exc["method"], exc["active"], mode, "+".join(case["mols"]))]}
+    if not nontrivial and not viol:
+        res["ineligible"] = "no re-evaluation was eligible (convergence / state identity)"
+    return res
+
+
+def run_allforces(case):
+    """analytical excited-state run with do_all_forces=True: slot i of all_forces vs a separate run with active_state=i"""
+    from vlib import run
+    g = np.random.default_rng(case["seed"])
+    Z, X0, q, m = gen.molecule(case["mol"])
+    rows = []
+    for _ in range(case["nrows"]):
+        X = gen.distort(X0, g, sigma=0.05)
+        rows.append(X @ gen.generic_rotation(X, g).T + g.uniform(-3, 3, 3))
+    Xs = np.stack(rows)
+    exc = case["excited"]
+    act0 = exc["active"]
+    n = len(Z)
+    mon = {"force_calls": 0, "allforces_slots_compared": 0, "fd_dirs_compared": 0, "excited_dirs_compared": 0,
+           "finite_checks": 0}
+    margins, viol, obs = {}, [], {}
+
+    def upd(name, val, tol):
+        r = float(val) / tol
+        if not (r <= margins.get(name, -1.0)):
+            margins[name] = r
+        return not (r <= 1.0)
+
+    def sett_for(active, allf):
+        c2 = dict(case, excited=dict(exc, active=active))
+        s = _settings(c2, "analytical")
+        if allf:
+            s["do_all_forces"] = True
+        return s
+
+    try:
+        with run.quiet():
+            mol, es, _ = run.build([Z] * len(rows), Xs, sett_for(act0, True), q, m)
+            es(mol)
+    except Exception as e:
+        if _is_solver_nonconvergence(e):
+            return {"ineligible": "rejected: %s" % str(e)[:60], "monitors": mon}
+        raise
+    mon["force_calls"] += 1
+    AF = run.npy(getattr(mol, "all_forces", None))
+    nst = exc["n_states"]
+    if AF is None or AF.shape != (len(rows), nst + 1, n, 3):
+        return {"violations": [{"clause": "all-forces-shape", "mech": None,
+                                "detail": {"shape": None if AF is None else list(AF.shape), "expected": [len(rows), nst + 1, n, 3]}}],
+                "monitors": mon}
+    act_after = np.asarray(run.npy(mol.active_state) if hasattr(mol.active_state, "shape") else mol.active_state).reshape(-1)
+    if not np.all(act_after == act0):
+        viol.append({"clause": "active-state-not-restored-after-do-all-forces", "mech": None,
+                     "detail": {"before": act0, "after": act_after.tolist()}})
+    F_active = run.npy(mol.force)
+    ce = run.npy(mol.cis_energies)
+    for i in range(nst + 1):
+        try:
+            o = run.single_point([Z] * len(rows), Xs, sett_for(i, False), charges=q, mult=m)
+        except Exception as e:
+            if _is_solver_nonconvergence(e):
+                continue
+            raise
+        mon["force_calls"] += 1
+        for r in range(len(rows)):
+            mon["finite_checks"] += 1
+            if bool(np.asarray(o["notconverged"]).reshape(-1)[r]):
+                continue
+            if not np.all(np.isfinite(AF[r, i])):
+                viol.append({"clause": "force-not-finite-with-clean-flag/all_forces", "mech": None,
+                             "detail": {"row": r, "state": i, "species": Z, "coords": Xs[r].tolist()}})
+                continue
+            if i > 0:
+                sep = min([abs(ce[r][k] - ce[r][i - 1]) for k in (i - 2, i) if 0 <= k < ce.shape[1]] + [9.0])
+                if not (sep >= 0.05):
+                    continue
+            d = np.abs(AF[r, i] - o["force"][r]).max()
+            mon["allforces_slots_compared"] += 1
+            if upd("all_forces_vs_separate_run", d, TOL_REEVAL_FRESH):
+                mech = None
+                if i == 0 and act0 > 0 and np.abs(AF[r, 0] - AF[r, act0]).max() <= 1e-9 and np.all(np.isfinite(AF[r])):
+                    mech = "all-forces-slot0-holds-active-state"
+                viol.append({"clause": "all-forces-slot-vs-separate-run/state%d" % i, "mech": mech,
+                             "detail": {"row": r, "state": i, "initial_active_state": act0, "max_abs_diff": float(d),
+                                        "tol": TOL_REEVAL_FRESH, "slot0_equals_active_state_slot":
+                                        bool(np.abs(AF[r, 0] - AF[r, act0]).max() <= 1e-9), "species": Z, "coords": Xs[r].tolist()}})
+            if r == 0 and i == (act0 % nst) + 1:
+                # one non-active excited slot against the difference quotient of the separate run's Etot
+                c2 = dict(case, excited=dict(exc, active=i), kind="lib")
+                _fd_check(c2, "analytical", Z, Xs[r], q, m, AF[r, i], float(o["Etot"][r]), c2["excited"], mon, upd, viol,
+                          "fd_all_forces", "force-vs-fd/all_forces/state%d" % i, {"row": r, "state": i}, case["seed"] + i, maxdirs=6)
+    d = np.abs(F_active - AF[:, act0]).max()
+    if upd("all_forces_active_slot_vs_returned_force", d, 1e-12 if act0 > 0 else 1e-12):
+        viol.append({"clause": "all-forces-active-slot-vs-returned-force", "mech": None, "detail": {"max_abs_diff": float(d)}})
+    nontrivial = mon["allforces_slots_compared"] > 0
+    res = {"nontrivial": nontrivial, "violations": viol, "margins": margins, "monitors": mon, "obs": {"worst": margins},
+           "cells": ["allforces/%s/%s/active%d/%s" % (case["method"], exc["method"], act0, case["mol"])]}
+    if not nontrivial and not viol:
+        res["ineligible"] = "no slot eligible"
+    return res
+
+
 def run_case(case):
     from vlib import run
     if case["kind"] == "cgbatch":
         return run_cgbatch(case)
+    if case["kind"] == "reeval":
+        return run_reeval(case)
+    if case["kind"] == "allforces":
+        return run_allforces(case)
     rows, check = build_rows(case)
     S, C, Q, M = _batch_arrays(case, rows)
     modes = list(case["modes"])
